@@ -10,8 +10,8 @@ def classify(case_line):
 CFG = dict(
     imports=["From Verif.Common Require Import Labels.", "From Verif.C06 Require Import Model Spec."],
     checker="check_case",
-    n=dict(quick=700, thorough=20000),
-    shard=100,
+    n=dict(quick=520, thorough=20000),
+    shard=65,
     classify=classify,
     rule="45 fixed boundary expressions, then grammar-directed selector expressions (all operators incl. both spellings of "
          "'not in'/'starts with'/'ends with', nesting <= 6, both quote styles, blank/tab noise, trailing commas, empty and duplicate "
